@@ -18,7 +18,8 @@ THEOREMS = ['C10_idempotent', 'C10_ascii_clean', 'C10_canonical', 'C10_idempoten
             'C10_flatten_path_idempotent', 'C10_flatten_path_no_dot_segments', 'C10_flatten_path_fixpoint',
             'C10_upper_pe_idempotent', 'C10_upper_pe_escapes_upper',
             'C10_percent_encode_ascii_clean', 'C10_percent_encode_fixpoint',
-            'C10_equiv_scheme_case_partial', 'C10_equiv_host_case_partial', 'C10_equiv_dot_segments_partial']
+            'C10_equiv_scheme_case_partial', 'C10_equiv_default_port_partial', 'C10_equiv_host_case_partial',
+            'C10_equiv_dot_segments_partial']
 TRUSTED = [
     'hand-written model Model/Url.v + Model/UrlLib.v of wpull/url.py, tied by the vm_compute correspondence of this run '
     '(error kind or all 14 attributes, .url, every accessor, parse_url_or_log) on generated URLs',
@@ -764,9 +765,10 @@ LEVEL_TEXT = ('Coq theorems over the executable model of wpull/url.py, for ALL i
               'the default, an absolute path without dot or empty segments and only upper-case escapes (C10_canonical); component laws for '
               'flatten_path, percent_encode and uppercase_percent_encoding; UTF-8 satisfies the encoder hypothesis (C10_utf8_encoder_ok). '
               'All closed under the global context. Of the clause "spellings that differ only in those respects normalize to the same '
-              'string" three classes are theorems (C10_equiv_*_partial): scheme letter case for the whole URL and arbitrary input text; '
-              'host letter case and inserted "/.", "//", "/x/.." segments at the level of the component normalizer. Escape hex-digit '
-              'case, explicit default port, dropped fragment and IPv4/IPv6 re-spelling are NOT theorems: they are checked on the '
+              'string" four classes are theorems (C10_equiv_*_partial): scheme letter case for the whole URL and arbitrary input text; an '
+              'explicit default port at the level of parse_network for arbitrary text; host letter case and inserted "/.", "//", "/x/.." '
+              'segments at the level of the component normalizer. Escape hex-digit case, dropped fragment and IPv4/IPv6 re-spelling are '
+              'NOT theorems: they are checked on the '
               'implementation for every generated URL (variants). The model is tied to the code on every run by evaluating it inside '
               'Coq against URLInfo.parse and all accessors.')
 LEVEL_NOTE = ('Trusted: Coq kernel + vm_compute; the hand-written model; the five library hypotheses (sampled every run, not proved, except '
